@@ -9,6 +9,21 @@ HERE = os.path.dirname(os.path.dirname(os.path.abspath(__file__)))
 sys.path.insert(0, HERE)
 
 CLAIMED = {
+    'C09': dict(
+        category='other',
+        text='Lockset discipline on all CFG paths: the held/free state of the repository mutex is propagated through every '
+             'function of tsrm.c (context-sensitive for the flag-parameterised lookup) and every repository access must '
+             'see {held}; locks released on all paths, nothing that can block or do I/O runs under the lock (two reasoned '
+             'exceptions), single mutex; every write to static storage reachable from the interposers is enumerated and '
+             'must be a synchronisation object, under the lock or in the pthread_once initialiser; deny-list of '
+             'non-reentrant libc APIs; per-thread record keyed by pthread_self() and removed by its owner; the '
+             'non-thread-safe build has no lock and only the two global records. Decides race-freedom for every '
+             'interleaving rather than sampling schedules.',
+        design_ref='DESIGN.md §5 C09, §4 A3/A6',
+        note='One known finding (libc utmp cursor shared between threads, replayed deterministically, not repaired); two '
+             'races found on the pinned tree were replayed under ThreadSanitizer and repaired. Not decided: record '
+             'contents under actual interleavings.',
+        technique='static analysis: lockset/typestate dataflow + static-storage write enumeration + deny-list'),
     'C16': dict(
         category='other',
         text='Acquire/release typestate on all CFG paths of every function reachable from the interposers (heap, FILE*, '
